@@ -353,9 +353,14 @@ fn mem_operand_address(opr: &bad64::Operand) -> Result<(il::Expression, MemOpera
         | bad64::Operand::SysReg(_)
         | bad64::Operand::ImplSpec { .. }
         | bad64::Operand::Cond(_)
-        | bad64::Operand::Label(_)
         | bad64::Operand::Name(_)
-        | bad64::Operand::StrImm { .. } => unreachable!("Memory operand is expected here"),
+        | bad64::Operand::StrImm { .. } => return Err(unsupported()),
+
+        // PC-relative literal, the decoder has resolved the address
+        bad64::Operand::Label(imm) => (
+            il::expr_const(imm_to_u64(imm), 64),
+            MemOperandSideeffect::None,
+        ),
     };
 
     Ok((address_expr, sideeffect))
